@@ -3,7 +3,7 @@
    phase functions, ending with an `updated` snapshot; the fuel of [run] is
    never exhausted.  Generic induction principles for phase-indexed invariants. *)
 From Coq Require Import List ZArith QArith Bool Arith Lia.
-From PV Require Import Model.Types Model.Sim Proofs.Base Proofs.Frames.
+From PV Require Import Model.Types Model.Sim Proofs.Base Proofs.Frames Proofs.Proj.
 Import ListNotations.
 Open Scope nat_scope.
 
@@ -33,99 +33,34 @@ Inductive trace_from : pstate -> list obs -> pstate -> Prop :=
     let sa := step_allocate s1 in
     let sp := step_perform sa in
     let sr := step_record sp in
-    trace_from (with_time sr (S (time s1))) rest sf ->
+    trace_from (with_time sr (S (time sr))) rest sf ->
     trace_from s ((time s1, PUpdated, s1) :: (time s1, PAllocated, sa) :: (time s1, PPerformed, sp)
                   :: (time s1, PRecorded, sr) :: rest) sf.
 
-(* time bookkeeping *)
-Lemma time_with_td s f : time (with_td s f) = time s. Proof. reflexivity. Qed.
-
-Lemma time_fold {B} (f : pstate -> B -> pstate) l s :
-  (forall x b, time (f x b) = time x) -> time (fold_left f l s) = time s.
-Proof.
-  intros H. revert s; induction l as [|b l IH]; intros s; simpl; [reflexivity|].
-  rewrite IH. apply H.
-Qed.
-
-Lemma time_finish_task s t : time (finish_task c s t) = time s.
-Proof. unfold finish_task. destruct (t_needfac c t); reflexivity. Qed.
-
-Lemma time_finish_pass s : time (fst (finish_pass c s)) = time s.
-Proof.
-  unfold finish_pass.
-  apply (fold_left_inv (fun acc : pstate * bool => time (fst acc) = time s)); [reflexivity|].
-  intros [s' ch] t H. cbn [fst] in *. destruct (finish_gate c s' t); cbn [fst]; [|exact H].
-  rewrite time_finish_task. exact H.
-Qed.
-
-Lemma time_finish_loop fuel : forall s, time (finish_loop c fuel s) = time s.
-Proof.
-  induction fuel as [|f IH]; intros s; simpl; [reflexivity|].
-  destruct (finish_pass c s) as [s' ch] eqn:E.
-  assert (H : time s' = time s) by (change s' with (fst (s', ch)); rewrite <- E; apply time_finish_pass).
-  destruct ch; [rewrite IH|]; exact H.
-Qed.
-
-Lemma time_detach_one s k : time (detach_one s k) = time s.
-Proof. unfold detach_one. destruct (pw (cd s k)); reflexivity. Qed.
-Lemma time_detach_tree s k : time (detach_tree c s k) = time s.
-Proof. unfold detach_tree. apply time_fold. intros; apply time_detach_one. Qed.
-Lemma time_check_removing cr s : time (check_removing c cr s) = time s.
-Proof. unfold check_removing. apply time_fold. intros; apply time_detach_tree. Qed.
-
-Lemma time_fwd_edge s src e : time (fwd_edge s src e) = time s.
-Proof.
-  unfold fwd_edge. destruct e as [n k]; cbn [fst snd]. destruct k; cbv zeta;
-  match goal with |- time (if ?b then _ else _) = _ => destruct b end; reflexivity.
-Qed.
-Lemma time_bwd_edge s src e : time (bwd_edge s src e) = time s.
-Proof.
-  unfold bwd_edge. destruct e as [n k]; cbn [fst snd]. destruct k; cbv zeta;
-  match goal with |- time (if ?b then _ else _) = _ => destruct b end; reflexivity.
-Qed.
-Lemma time_fwd_round s front : time (fst (fwd_round c s front)) = time s.
-Proof.
-  unfold fwd_round.
-  apply (fold_left_inv (fun acc : pstate * list nat => time (fst acc) = time s)); [reflexivity|].
-  intros acc src H.
-  apply (fold_left_inv (fun a2 : pstate * list nat => time (fst a2) = time s)); [exact H|].
-  intros a2 e H2. cbn [fst]. rewrite time_fwd_edge. exact H2.
-Qed.
-Lemma time_bwd_round s front : time (fst (bwd_round c s front)) = time s.
-Proof.
-  unfold bwd_round.
-  apply (fold_left_inv (fun acc : pstate * list nat => time (fst acc) = time s)); [reflexivity|].
-  intros acc src H.
-  apply (fold_left_inv (fun a2 : pstate * list nat => time (fst a2) = time s)); [exact H|].
-  intros a2 e H2. cbn [fst]. rewrite time_bwd_edge. exact H2.
-Qed.
-Lemma time_fwd_loop fuel : forall s front, time (fwd_loop c fuel s front) = time s.
-Proof.
-  induction fuel as [|f IH]; intros s front; simpl; [reflexivity|].
-  destruct front; [reflexivity|]. destruct (fwd_round c s (n :: front)) as [s' nx] eqn:E.
-  rewrite IH. change s' with (fst (s', nx)). rewrite <- E. apply time_fwd_round.
-Qed.
-Lemma time_bwd_loop fuel : forall s front, time (bwd_loop c fuel s front) = time s.
-Proof.
-  induction fuel as [|f IH]; intros s front; simpl; [reflexivity|].
-  destruct front; [reflexivity|]. destruct (bwd_round c s (n :: front)) as [s' nx] eqn:E.
-  rewrite IH. change s' with (fst (s', nx)). rewrite <- E. apply time_bwd_round.
-Qed.
-Lemma time_update_pert tm s : time (update_pert c tm s) = time s.
-Proof.
-  unfold update_pert, pert_backward, pert_forward.
-  match goal with |- time (match ?l with [] => _ | _ => _ end) = _ => destruct l end.
-  - cbn [time with_cpl with_td]. rewrite time_fwd_loop. reflexivity.
-  - rewrite time_bwd_loop. rewrite time_fold by (intros; reflexivity).
-    cbn [time with_cpl with_td]. rewrite time_fwd_loop. reflexivity.
-Qed.
-
+(* time bookkeeping: no phase writes project.time *)
 Lemma time_update s : time (update s) = time s.
+Proof. apply (pi_update c _ time); reflexivity. Qed.
+
+Lemma time_step_allocate s : time (step_allocate s) = time s.
 Proof.
-  unfold Sim.update. rewrite time_update_pert. cbn [time product_check_state with_cd check_ready with_td].
-  rewrite time_check_removing. cbn [time product_check_state with_cd].
-  unfold check_finished. apply time_finish_loop.
+  unfold Sim.step_allocate.
+  set (w := negb (mem (time s) (o_abs o))).
+  assert (H1 : time (absence_update c w s) = time s) by (apply (pi_absence_update c _ time); reflexivity).
+  assert (H2 : time (if w then allocate c o (absence_update c w s) else absence_update c w s) = time s).
+  { destruct w; [|exact H1]. rewrite <- H1. apply (pi_allocate c _ time); reflexivity. }
+  destruct (w || o_auto_abs o); [|exact H2].
+  rewrite <- H2. rewrite (pi_product_check_state c _ time) by reflexivity.
+  apply (pi_check_working c _ time); reflexivity.
 Qed.
+
+Lemma time_step_perform s : time (step_perform s) = time s.
+Proof.
+  unfold Sim.step_perform. destruct (negb (mem (time s) (o_abs o))); [reflexivity|].
+  destruct (o_auto_abs o); reflexivity.
+Qed.
+
+Lemma time_step_record s : time (step_record s) = time s.
+Proof. reflexivity. Qed.
 
 (* the fuel of [run] is never exhausted *)
 Lemma run_trace : forall fuel s acc,
@@ -151,8 +86,10 @@ Proof.
                       [(time s1, PAllocated, sa); (time s1, PPerformed, sp); (time s1, PRecorded, sr)]))
           as (tr & Htr & Hsnd).
         { cbn [time with_time]. unfold s1. rewrite time_update. lia. }
+        assert (Et : time sr = time s1).
+        { unfold sr, sp, sa. rewrite time_step_record, time_step_perform, time_step_allocate. reflexivity. }
         eexists. split.
-        -- apply tr_step; [exact Ea|exact Em|]. exact Htr.
+        -- apply tr_step; [exact Ea|exact Em|]. fold s1 sa sp sr. rewrite Et. exact Htr.
         -- fold s1 sa sp sr. rewrite Hsnd. rewrite <- !app_assoc. reflexivity.
 Qed.
 
@@ -172,7 +109,7 @@ Section Invariant.
   Hypothesis HUA : forall s, QU s -> QA (step_allocate s).
   Hypothesis HAP : forall s, QA s -> QP (step_perform s).
   Hypothesis HPR : forall s, QP s -> QR (step_record s).
-  Hypothesis HR0 : forall s n, QR s -> Q0 (with_time s n).
+  Hypothesis HR0 : forall s, QR s -> Q0 (with_time s (S (time s))).
 
   Definition Qof (ph : phase) : pstate -> Prop :=
     match ph with PUpdated => QU | PAllocated => QA | PPerformed => QP | PRecorded => QR end.
@@ -190,7 +127,7 @@ Section Invariant.
       assert (HA : QA sa) by (apply HUA; exact HU).
       assert (HP : QP sp) by (apply HAP; exact HA).
       assert (HR : QR sr) by (apply HPR; exact HP).
-      destruct (IH (HR0 _ _ HR)) as [IH1 IH2].
+      destruct (IH (HR0 _ HR)) as [IH1 IH2].
       split; [|exact IH2].
       repeat (constructor; [cbn; assumption|]). exact IH1.
   Qed.
@@ -220,6 +157,9 @@ Proof.
   - constructor.
   - apply cons_UA, cons_AP, cons_PR.
     destruct (trace_head _ _ _ Hrest) as (l & El). subst rest.
+    assert (Et : time sr = time s1).
+    { unfold sr, sp, sa. rewrite time_step_record, time_step_perform, time_step_allocate. reflexivity. }
+    rewrite Et in *.
     rewrite time_update in *. cbn [time with_time] in *.
     apply cons_RU. exact IH.
 Qed.
